@@ -3,11 +3,6 @@
 package ws
 
 import (
-	"bytes"
-	"crypto/sha1"
-	"encoding/base64"
-	"io"
-
 	"github.com/gobwas/httphead"
 )
 
@@ -113,97 +108,6 @@ func C09_header_line() {
 }
 
 // ---- whole handshake: request templates with symbolic holes ----
-
-type vConn struct {
-	in     []byte
-	pos    int
-	out    []byte
-	one    bool
-	cutErr bool
-}
-
-func (c *vConn) Read(p []byte) (int, error) {
-	if c.pos >= len(c.in) {
-		if c.cutErr {
-			return 0, io.ErrUnexpectedEOF
-		}
-		return 0, io.EOF
-	}
-	n := len(c.in) - c.pos
-	if n > len(p) {
-		n = len(p)
-	}
-	if c.one && n > 1 {
-		n = 1
-	}
-	copy(p, c.in[c.pos:c.pos+n])
-	c.pos += n
-	return n, nil
-}
-
-func (c *vConn) Write(p []byte) (int, error) { c.out = append(c.out, p...); return len(p), nil }
-
-func vAccept(key []byte) []byte {
-	h := sha1.Sum(append(append([]byte{}, key...), "258EAFA5-E914-47DA-95CA-C5AB0DC85B11"...))
-	out := make([]byte, 28)
-	base64.StdEncoding.Encode(out, h[:])
-	return out
-}
-
-// vResp is a parsed HTTP response head (concrete bytes expected).
-type vResp struct {
-	ok      bool
-	status  int
-	headers [][2]string
-	body    []byte
-}
-
-func vParseResp(b []byte) (r vResp) {
-	end := bytes.Index(b, []byte("\r\n\r\n"))
-	if end < 0 {
-		return r
-	}
-	lines := bytes.Split(b[:end], []byte("\r\n"))
-	sl := lines[0]
-	if len(sl) < 12 || string(sl[:9]) != "HTTP/1.1 " {
-		return r
-	}
-	for _, c := range sl[9:12] {
-		if c < '0' || c > '9' {
-			return r
-		}
-		r.status = r.status*10 + int(c-'0')
-	}
-	for _, l := range lines[1:] {
-		i := bytes.Index(l, []byte(": "))
-		if i < 0 {
-			return r
-		}
-		r.headers = append(r.headers, [2]string{string(l[:i]), string(l[i+2:])})
-	}
-	r.body = b[end+4:]
-	r.ok = true
-	return r
-}
-
-func (r vResp) get(name string) (string, int) {
-	n, v := 0, ""
-	for _, h := range r.headers {
-		if h[0] == name {
-			if n == 0 {
-				v = h[1]
-			}
-			n++
-		}
-	}
-	return v, n
-}
-
-var vKeys = []string{"dGhlIHNhbXBsZSBub25jZQ==", "AAAAAAAAAAAAAAAAAAAAAA=="}
-
-type vRejectErr struct{}
-
-func (vRejectErr) Error() string { return "harness: plain rejection" }
 
 // C09_upgrade_template: Upgrader.Upgrade succeeds exactly for compliant requests and answers
 // with the right 101 / error response.  One element of the request is perturbed per path;
